@@ -97,7 +97,8 @@ def _single(pass_name):
 def C02_reduce_family():
     """Transpose(p1) -> ReduceMean -> Transpose(p2) over: every permutation pair of rank 3 (and layout pairs of rank 4),
     axes as attribute (opset 13) and as input (opset 18), positive/negative axes, keepdims 0/1, the reducer output
-    also read by a second consumer / listed as graph output, the second transpose's output with and without a
+    also read by a second consumer / by a further Transpose with the same or another permutation / listed as graph
+    output, the second transpose's output with and without a
     declared shape.  remove_redundant_transpose_reduce_ir must change no output and leave no false declaration."""
     from onnx import helper, TensorProto, numpy_helper
     rng = np.random.default_rng(7)
@@ -113,7 +114,7 @@ def C02_reduce_family():
                 for axes in ([1], [-1], [1, 2], [0, -1]) if rank == 3 else ([1, 2], [-1], [2, 3]):
                     cases.append((rank, shape, p1, p2, axes))
     for rank, shape, p1, p2, axes in cases:
-        for opset, keepdims, variant, declare_t2 in itertools.product((13, 18), (1, 0), ("plain", "second_consumer", "reducer_is_output"), (True, False)):
+        for opset, keepdims, variant, declare_t2 in itertools.product((13, 18), (1, 0), ("plain", "second_consumer", "reducer_is_output", "also_read_by_another_transpose", "read_by_two_equal_transposes"), (True, False)):
             if keepdims == 0 and (variant != "plain" or not declare_t2):
                 continue
             if rank == 4 and opset == 13 and variant != "plain":
@@ -145,6 +146,12 @@ def C02_reduce_family():
                 outs.append(helper.make_tensor_value_info("z", TensorProto.FLOAT, r_shape))
             elif variant == "reducer_is_output":
                 outs.append(helper.make_tensor_value_info("ro", TensorProto.FLOAT, r_shape))
+            elif variant in ("also_read_by_another_transpose", "read_by_two_equal_transposes"):
+                # a second Transpose on the reducer output: with another permutation (a user transpose) or with the same one
+                p3 = list(p2) if variant == "read_by_two_equal_transposes" else ([k for k in reversed(range(rank))] if list(p2) != [k for k in reversed(range(rank))] else list(range(rank)))
+                nodes.append(helper.make_node("Transpose", ["ro"], ["t3o"], perm=p3, name="t3"))
+                nodes.append(helper.make_node("Neg", ["t3o"], ["z"], name="neg"))
+                outs.append(helper.make_tensor_value_info("z", TensorProto.FLOAT, [r_shape[i] for i in p3]))
             g = helper.make_graph(nodes, "g", [helper.make_tensor_value_info("x", TensorProto.FLOAT, list(shape))], outs, initializer=inits, value_info=vis)
             m = helper.make_model(g, opset_imports=[helper.make_opsetid("", opset)])
             m.ir_version = 10
